@@ -242,6 +242,14 @@ func scenarioC14(c *Ctx) {
 		pairs = append(pairs, pair{"finish-reinit || batch proposal for the reinitialised round", []Item{w.ReinitItem(roundOld, body, nil, "reinit")},
 			mkItem(prop, fmt.Sprintf("by %d %d", tok.TokB(nk.Pub), tok.TokB(data)), NOWMARK, "start-after-reinit"), false, "result || operation-producing-message", false, true})
 	}
+	// a result for round A while the poller handles a REINIT message of another round (the reinit handler
+	// replays the round, puts its operation and saves the round: it must be serialised with the API like
+	// the handler of an ordinary message)
+	{
+		roundR := "round-c14-reinit-msg"
+		bodyR := w.ReDKGOf(dkgPart(w.Honest(roundR, me)))
+		pairs = append(pairs, pair{"result (round A) || reinit message of another round", h[:1], w.ReinitItem(roundR, bodyR, nil, "reinit-while-answering"), false, "result || operation-producing-message", false, false})
+	}
 	if !c.Quick() {
 		// every (request kind, message kind) pair of the ceremony: the oldest pending operation is
 		// answered while the poller applies the next message of the history
@@ -362,7 +370,7 @@ func scenarioC14(c *Ctx) {
 			c.Case("labels", true, "rmwlabels", "rmwlabels request="+lab("0:")+" poller="+lab("1:"))
 		}
 		sw := switches
-		if c.Quick() && (p.reinit || strings.Contains(p.name, "round B")) {
+		if c.Quick() && (p.reinit || strings.Contains(p.name, "round B") || strings.Contains(p.name, "reinit message")) {
 			sw = 1 // quick: one pre-emption (the pre-empting side runs to its end) for the pairs added last
 		}
 		for _, sc := range boundedSchedules(na, nb, sw) {
